@@ -24,6 +24,7 @@ type GenConfig struct {
 	Raw            int  // weight of raw (C12 only)
 	Serve          int  // weight of serve (chunks of a file delivered to the peer; C17)
 	GCRace         int  // weight of gcr (collection with an operation racing with the first eviction; C12)
+	GetFault       int  // weight of getfault (read under a file context whose local read fails with a non-not-found error; C17)
 	DelRace        int  // weight of delr (DELETE held at DelFile's entry while an overlapping upload / DELETE completes; C16)
 	Dirs           bool
 	Budget         int // full-chunk units a case may upload / transfer (cost bound)
@@ -270,6 +271,18 @@ func GenHistory(r *core.Rand, cfg GenConfig) []string {
 					return
 				}
 				ops = append(ops, "delr "+a+" del "+b+" -")
+			}
+		}},
+		{cfg.GetFault, func() {
+			// mostly a data chunk of a cached (possibly partially fetched: the chunk may be missing) file
+			s := anyOf()
+			if len(atP) > 0 && r.Chance(70) {
+				s = atP[r.Intn(len(atP))]
+			}
+			if r.Chance(80) {
+				ops = append(ops, fmt.Sprintf("getfault %s d%d", s, r.Intn(3)))
+			} else {
+				ops = append(ops, fmt.Sprintf("getfault %s h%d", s, r.Intn(4)))
 			}
 		}},
 		{cfg.Raw, func() {
